@@ -119,10 +119,18 @@ inductive Source where
   | file (path : Str)
   /-- `-` -/
   | stdin
+  /-- an EXCLUSION file (`-x ^F`, `-^F`): read like every `^F`; its hosts are excluded, not targeted -/
+  | xfile (path : Str)
   deriving Repr
+
+def Source.isTarget : Source → Bool
+  | .xfile _ => false
+  | _ => true
 
 structure Result where
   exprs : List Str := []
+  /-- expressions of the exclusion files, in order -/
+  excluded : List Str := []
   skipped : Nat := 0
   error : Bool := false
   deriving Repr
@@ -131,16 +139,23 @@ def addSource (fs : FS) (st : Result × Str) (s : Source) : Result × Str :=
   if st.1.error then st
   else
     let merge (a : Acc) : Result :=
-      { exprs := st.1.exprs ++ a.exprs, skipped := st.1.skipped + a.skipped, error := a.error }
+      { st.1 with exprs := st.1.exprs ++ a.exprs, skipped := st.1.skipped + a.skipped, error := a.error }
     match s with
     | .word w => ({ st.1 with exprs := st.1.exprs ++ [w] }, st.2)
     | .file p => (merge (fileHosts fs p), st.2)
     | .stdin => (merge (streamHosts fs ['.'] st.2), [])
+    | .xfile p =>
+      let a := fileHosts fs p
+      ({ st.1 with excluded := st.1.excluded ++ a.exprs, skipped := st.1.skipped + a.skipped,
+                   error := a.error }, st.2)
 
-/-- the target list (as expressions) of a command line -/
+/-- the target list (as expressions) of a command line: the sources in order; WCOLL is consulted
+only when no source of targets (word, file, stdin) is given -/
 def assemble (fs : FS) (stdin : Str) (srcs : List Source) (wcollEnv : Option Str) : Result :=
-  match srcs, wcollEnv with
-  | [], some f => (addSource fs ({}, stdin) (if f = ['-'] then .stdin else .file f)).1
-  | _, _ => (srcs.foldl (addSource fs) ({}, stdin)).1
+  let st := srcs.foldl (addSource fs) ({}, stdin)
+  if srcs.any Source.isTarget then st.1
+  else match wcollEnv with
+    | none => st.1
+    | some f => (addSource fs st (if f = ['-'] then .stdin else .file f)).1
 
 end PdshVerif.Opt.WcollSpec
